@@ -3,6 +3,7 @@
 mod ast;
 mod build;
 mod custom;
+mod helper;
 mod render;
 mod sexp;
 mod view;
@@ -51,6 +52,7 @@ fn handle(line: &str) -> String {
         Request::Pad(kind, bytes, n) => run_pad(&mut out, *kind, bytes, *n),
         Request::Build(b, bufs) => build::run_build(&mut out, b, bufs),
         Request::Size(b) => build::run_size(&mut out, b),
+        Request::Helper(h) => helper::run_helper(&mut out, h),
     }
     out.buf
 }
